@@ -657,7 +657,7 @@ fn c12_o5_table_full_bucket() {
 }
 
 //@ ob: C12.O5d
-//@ tier: thorough
+//@ tier: off
 //@ cap: 2400
 //@ standins: vcoll
 //@ also: C20
@@ -699,7 +699,7 @@ fn c12_o5d_table_full_bucket_direct() {
 }
 
 //@ ob: C12.O4c
-//@ tier: thorough
+//@ tier: off
 //@ cap: 2400
 //@ standins: vcoll
 //@ also: C20
@@ -758,7 +758,7 @@ fn c12_o4c_rekey_pivot_bucket() {
 }
 
 //@ ob: C12.O3k
-//@ tier: thorough
+//@ tier: off
 //@ cap: 2400
 //@ standins: vcoll
 //@ also: C14
@@ -855,8 +855,8 @@ fn iteration_instance(gap: u8) {
 }
 
 //@ ob: C12.O6a
-//@ tier: thorough
-//@ cap: 1500
+//@ tier: off
+//@ cap: 2400
 //@ standins: vcoll
 //@ also: C14 C20
 //@ desc: iteration agrees with the table's contents when the bucket map holds an emptied bucket (what remove() leaves behind) BEFORE the occupied ones: nodes() yields exactly the three entries (nearer buckets first, bucket order inside), size() = 3, is_empty() is false -- an emptied bucket never hides the buckets after it
@@ -872,8 +872,8 @@ fn c12_o6a_iteration_empty_bucket_first() {
 }
 
 //@ ob: C12.O6b
-//@ tier: thorough
-//@ cap: 1500
+//@ tier: off
+//@ cap: 2400
 //@ standins: vcoll
 //@ also: C14 C20
 //@ desc: as C12.O6a with the emptied bucket BETWEEN the occupied ones (157 between 155 and 160)
@@ -889,8 +889,8 @@ fn c12_o6b_iteration_empty_bucket_between() {
 }
 
 //@ ob: C12.O6c
-//@ tier: thorough
-//@ cap: 1500
+//@ tier: off
+//@ cap: 2400
 //@ standins: vcoll
 //@ also: C14 C20
 //@ desc: a table whose only bucket has been emptied (every peer purged by a ping round) is empty: is_empty() is true, size() is 0, nodes() yields nothing -- so the maintenance loop re-bootstraps; and after one add it is non-empty with size 1
